@@ -67,6 +67,12 @@ def fmt_line(h):
     return f"{cfg} {rc} {','.join(script) if script else '-'} " + " ".join(events)
 
 
+def is_gated(h):
+    """histories with the harness-only events G / R (a slow subscriber on the protocol's new-device event) are
+    judged by the statement-level oracle only: the Lean machine does not model frames in the middle of handling"""
+    return any(e.split(":")[0] in ("G", "R") for e in h[3])
+
+
 def run_impl(h, stop_when_closed=True, after_event=None):
     """execute a history on the implementation; returns (segments, per-event extras, runner info)"""
     cfg, rc, script, events = h
@@ -85,7 +91,10 @@ def run_impl(h, stop_when_closed=True, after_event=None):
                 error = f"event {i} ({e}): {sum(r.last_classes.values())} live tasks: {r.last_classes}"
             extras.append(dict(classes=dict(r.last_classes), names=list(r.last_names), raw=list(r.last_raw),
                                open_tids=list(r.open_tids), dev_ids={a: id(d) for a, d in r.devices.items()},
-                               data_ids={a: id(r.protocol.data.get(connrun.ADDR_NAME[a])) for a in r.devices}))
+                               data_ids={a: id(r.protocol.data.get(connrun.ADDR_NAME[a])) for a in r.devices
+                                         if connrun.ADDR_NAME[a] in r.protocol.data},
+                               gate_closed=bool(r.gate_waiting), fed=list(r.fed),
+                               rqsize=(r.read_queue().qsize() if r.read_queue() is not None else 0)))
             if after_event is not None:
                 after_event(r, i, e)
             if error or (stop_when_closed and r.close_task is not None and r.close_task.done()):
@@ -101,10 +110,12 @@ def run_impl(h, stop_when_closed=True, after_event=None):
 
 
 def model_batch(hists):
-    answers = driver_batch(connrun.model_request(*h) for h in hists)
+    answers = driver_batch(connrun.model_request(*h) if not is_gated(h) else "conn 1 1 -" for h in hists)
     out = []
-    for a in answers:
-        if a == "bad-op":
+    for h, a in zip(hists, answers):
+        if is_gated(h):
+            out.append("gated")
+        elif a == "bad-op":
             out.append(None)
         else:
             out.append([connrun.canon_model(x) for x in a.split("|")])
@@ -125,3 +136,34 @@ def first_diff(isegs, msegs):
         if i >= len(msegs) or a != strip_tie(msegs[i]):
             return i
     return None
+
+
+def gated_histories(tier="quick"):
+    """loss while frame consumers are in the middle of a frame: the first frames of a NEW device arrive while a
+    (harness) subscriber on the protocol's device-name event is slow (G:<addr>), so one consumer sits in the callback
+    holding the entry lock, the others queue behind the lock and further frames stay in the read queue; the
+    subscriber returns (R) before the loss, while the link is down, or after the reconnect.  Then traffic, and a
+    second plain loss / reconnect cycle."""
+    cfgs = [1, 2, 3] if tier == "quick" else [1, 2, 3, 4]
+    for cfg in cfgs:
+        for addr in (81, 69):
+            for burst in sorted({1, cfg, cfg + 2}):
+                for release in ("before", "down", "after"):
+                    for fails in ((1, 2) if tier == "quick" else (1, 2, 3)):
+                        for rc in (1, 0):
+                            if rc == 0 and (fails > 1 or release == "after"):
+                                continue
+                            script = ["ooo"] + (["e"] * fails if rc else []) + ["ooo", "ooo", "ooo"]
+                            evs = ["C"] + (["F:p:69", "F:f"] if addr == 81 else ["F:f"])
+                            evs += [f"G:{addr}"] + [f"F:p:{addr}"] * burst
+                            if release == "before":
+                                evs.append("R")
+                            evs.append("X")
+                            if release == "down":
+                                evs.append("R")
+                            evs += (["A:20037"] * fails if rc else ["A:1037", "C"])
+                            if release == "after":
+                                evs.append("R")
+                            evs += ["A:537", f"F:p:{addr}", "F:p:69", "F:f", "X"]
+                            evs += (["A:537"] if rc else ["A:537", "C"]) + [f"F:p:{addr}", "F:f"]
+                            yield (cfg, rc, script, evs)
